@@ -255,7 +255,8 @@ def addParamsErr (q : List (Bytes × Bytes)) : Bool :=
 /-- options of `add` the model does not cover (time-dependent or structured values, sharding, CAR import) -/
 def addUnmodelled (q : List (Bytes × Bytes)) : Bool :=
   !(qGet q b!"expire-at").isEmpty || !(qGet q b!"expire-in").isEmpty || !(qGet q b!"pin-update").isEmpty ||
-  !(qGet q b!"origins").isEmpty || parseBool (qGet q b!"shard") == some true || qGet q b!"format" == b!"car"
+  !(qGet q b!"origins").isEmpty || parseBool (qGet q b!"shard") == some true || parseBool (qGet q b!"nocopy") == some true ||
+  qGet q b!"format" == b!"car"
 
 /-! ## routing (gorilla/mux) -/
 
